@@ -120,6 +120,9 @@ func (l *Loader) Next() (entry *BinEntry, err error) {
 			t = rtype
 		} else {
 			t = l.lastEntry.Type
+			// a following chunk of a split value : the expiry read in front of the first chunk belongs to the
+			// whole key, else a key whose ttl ran out between two chunks is created again without expiry
+			entry.ExpireAt = l.lastEntry.ExpireAt
 		}
 		entry.Type = t
 		switch t {
